@@ -16,6 +16,8 @@ TERM_SPELLINGS = [
     ('/b+?\\n/', True, True, 're'), ('/\\r?\\n/', True, True, 're'), ('/\\n\\r?/', True, True, 're'), ('/[\\t-\\r]/', True, True, 're'),
     ('/c|\\n/', True, True, 're'), ('/[^\\w ]/', True, True, 're'), ('/(?i:A)\\n?/', True, True, 're'), ('/\\S+/', False, True, 're'),
     ('/\\w+/', False, True, 're'), ('/é+/', False, False, 're'), ('/[^\\x00-\\x09\\x0b-\\x7f]?\\n/', True, True, 're'),
+    # an optional multi-character tail: a proper prefix of a match may be matched only partially (dynamic_complete tries the prefixes)
+    ('/a(\\n\\nb)?/', True, True, 're'), ('/a(bc)?/', False, True, 're'), ('/0+(-0+)?/', False, True, 're'), ('/b(\\n c)?/', True, True, 're'),
 ]
 
 ALPHABET = ['a', 'b', 'c', ' ', '\n', '\n', '\t', '0', '-', 'A', '\r']
